@@ -438,9 +438,14 @@ class C11:
                         stack = [("swap", {ok2: ov}), ("swap", frame)]
                         ex.exec(src, glbs=self.ctx, locs=self.ctx, mode="exec")
                     rec.count("session_async_object_in_scope_left_early")
-                    _r = self.ctx.get("_r")
+                    _r = self.ctx.pop("_r", None)
                     if _r is not None:
-                        _r.end()
+                        try:
+                            with harness.alarm(20):
+                                _r.end()
+                        except harness.CaseTimeout:
+                            rec.count("session_async_object_never_ended_not_judged")  # C06's listed livelock race
+                            continue
                 elif outer:
                     ok2 = rng.choice([x for x in ("SETSTR", "UNKNOWNVAR", "SETPATH") if x != k])
                     ov = rng.choice(VALS[ok2])
